@@ -482,6 +482,9 @@ def run(ctx):
         nrun += c01_oracle.check_library(ctx, work, "cfih", "qlib", [
             c01_oracle.Func("h0", "void", [c01_oracle.CstrIn("s0")]),
             c01_oracle.Func("h1", "void", [c01_oracle.StringInout("s1")])], True, [(1, 0)], workers=2)
+        # optimised builds: functions with a call counter referenced twice in one expression (no PURE unless licensed)
+        for cxx_ in (False, True):
+            nrun += c01_oracle.check_library(ctx, work, "counter", "qlib", c01_oracle.counter_spec(), cxx_, [(0, 0)], workers=1, opt="-O2")
         # generic interfaces with preprocessor guards on some members: built with the macro undefined and defined
         for macros in ((), ("HAVE_PK",)):
             nrun += c01_oracle.check_library(ctx, work, "cppif" + "".join(macros), "qlib", c01_oracle.cppif_spec(), True,
